@@ -220,11 +220,11 @@ class Deframer(object):
                 if pid is None:
                     raise ValueError('frame without packet id')
                 fr = {'id': pid, 'body': payload[k:], 'compressed': compressed, 'size': len(payload),
-                      'off': start, 'end': self.off}
+                      'off': start, 'end': self.off, 'enc': self.cipher is not None, 'thr': self.threshold}
             except (ValueError, zlib.error) as e:
                 self.errors.append('frame at %d: %s' % (start, e))
                 fr = {'id': -1, 'body': body, 'compressed': None, 'size': n, 'off': start, 'end': self.off,
-                      'error': str(e)}
+                      'error': str(e), 'enc': self.cipher is not None, 'thr': self.threshold}
             self.frames.append(fr)
             new.append(fr)
 
@@ -242,6 +242,7 @@ class Script(object):
         ('close',) / ('reset',)  end of stream
         ('call', fn)             arbitrary hook fn(script)
         ('pause', name)          stop here until script.resume(name) (driven by the scenario)
+        ('wait', pred)           stop here until pred(script) holds
     """
 
     def __init__(self, steps, name='srv'):
@@ -315,6 +316,9 @@ class Script(object):
                 st[1](self)
             elif op == 'pause':
                 if st[1] not in self.resumed:
+                    return
+            elif op == 'wait':
+                if not st[1](self):
                     return
             self.pc += 1
 
